@@ -182,6 +182,29 @@ func genAnyPoly(r *hx.Rand) string {
 	return strings.Join(cs, ";")
 }
 
+// integer-grid polygons on a small lattice: 1-3 contours, each a rectangle, a triangle or a quadrilateral with whole-number
+// vertices in [-2, 8] (printed in eighths for the "gen" kind) - coincident edges, vertices lying on edges of the other operand,
+// edges crossing at lattice points and several edges ending on one scan line are the rule here, not the exception
+func genGridPoly(r *hx.Rand) string {
+	var cs []string
+	for n := r.Range(1, 3); n > 0; n-- {
+		var pts []string
+		if r.Chance(1, 3) {
+			x0, y0 := r.Range(-2, 6), r.Range(-2, 6)
+			x1, y1 := x0+r.Range(1, 6), y0+r.Range(1, 8)
+			for _, p := range [][2]int{{x0, y0}, {x1, y0}, {x1, y1}, {x0, y1}} {
+				pts = append(pts, fmt.Sprintf("%d,%d", 8*p[0], 8*p[1]))
+			}
+		} else {
+			for k := r.Range(3, 4); k > 0; k-- {
+				pts = append(pts, fmt.Sprintf("%d,%d", 8*r.Range(-2, 8), 8*r.Range(-2, 8)))
+			}
+		}
+		cs = append(cs, strings.Join(pts, " "))
+	}
+	return strings.Join(cs, ";")
+}
+
 var corpus = []string{
 	"rect f64 union 0,0 4,0 4,4 0,4 | 0,0 4,0 4,4 0,4",
 	"rect f64 sub 0,0 4,0 4,4 0,4 | 0,0 4,0 4,4 0,4",
@@ -208,6 +231,8 @@ func gen(r *hx.Rand, n int) []string {
 			out = append(out, corpus[i])
 		case i%4 == 3:
 			out = append(out, fmt.Sprintf("gen %s %s %s | %s", ft, op, genAnyPoly(r), genAnyPoly(r)))
+		case i%4 == 1:
+			out = append(out, fmt.Sprintf("gen %s %s %s | %s", ft, op, genGridPoly(r), genGridPoly(r)))
 		default:
 			out = append(out, fmt.Sprintf("rect %s %s %s | %s", ft, op, genRectPoly(r), genRectPoly(r)))
 		}
